@@ -70,6 +70,9 @@ def configs(tier, seed):
         else:
             for oc in ORIGINS:
                 out.append(dict(c, origin=oc, test="all125"))
+    if tier == "quick":
+        for i, c in enumerate(ps.close_configs(4)):
+            out.append(dict(c, origin=ORIGINS[i % 5], test="all125"))
     # order-list behaviour
     lp = [(1, 2), (3, 0)] if tier == "quick" else [(la, lb) for la in range(5) for lb in range(5)]
     for la, lb in lp:
